@@ -263,12 +263,15 @@ def main():
                         violations.append((desc, path, out[-1500:]))
                 elif v == 'sat-candidate':
                     os.remove(path)
-                elif failed is False and any(i.get('kind') in ('bits', 'bytes') for i in rec['inputs']) and retry_random(scratch, job, rec, path, x, known, known_hits, violations):
+                elif v == 'sat' and failed is False and any(i.get('kind') in ('bits', 'bytes') for i in rec['inputs']) and retry_random(scratch, job, rec, path, x, known, known_hits, violations):
                     pass
                 else:
                     if not args.keep:
                         os.remove(path)
-                    inconclusive.append((jid, x['label'], 'solver model did not reproduce natively (%s): encoding mismatch or tolerance' % v))
+                    why = 'solver model did not reproduce natively (%s): encoding mismatch or tolerance' % v
+                    if out and 'VERIF-MARGINAL' in out:
+                        why = 'native difference between the tolerance and 1e-6 only (%s): within the rounding noise of the binary64 reference model near a singular tail, not counted' % v
+                    inconclusive.append((jid, x['label'], why))
             else:
                 inconclusive.append((jid, x['label'], v))
 
